@@ -562,7 +562,11 @@ class RandomPrograms:
                 other = rng.choice(names)
                 if self.kind_of.get(other, 'var') == 'var' and other not in self.used_funcs and bname not in self.used_funcs:
                     self.kind_of.setdefault(other, 'var')
-                    stmts.append(Block([Eq(Var(bname, 'var', 0), Bin('+', Var(other, 'var', 0), Num('1')))]))
+                    # deliberately not idempotent, so that a block that is dropped, merged or run twice is observable
+                    blk = Block([Eq(Var(bname, 'var', 0), Bin('+', Bin('*', Var(bname, 'var', 0), Num('0.5')), Var(other, 'var', 0)))])
+                    stmts.append(blk)
+                    if rng.random() < 0.3:
+                        stmts.append(Block(list(blk.eqs)))   # the same verbatim block written twice
         eq_names = {tm.name for st in stmts if isinstance(st, Eq) for tm in st.terms()}
         stmts = [st for st in stmts if isinstance(st, Eq) or all(tm.name in eq_names for e in st.eqs for tm in e.terms())]
         prog = Program(stmts)
